@@ -163,16 +163,20 @@ static uint32_t pipe0;
 
 /* message of the counterexample (snapshot `vp_in` = *m, vp_in_moff); body: the snapshot
  * geometry, or (header-only units, body unconstrained there) a plain 64-byte buffer */
+#define B_BODY 1   /* body geometry is part of the precondition */
+#define B_NOREF 2  /* the contract does not require refcnt >= 1 */
+#define B_NOHLEN 4 /* the contract does not require header_len <= 64 */
 static int
-build_msg(nni_msg **mp, int with_body)
+build_msg(nni_msg **mp, int flags)
 {
+	int with_body = flags & B_BODY;
 	nni_msg *m;
 	hlen0 = vp_u64("vp_in.m_header_len", 0);
 	ref0  = (int) (int32_t) vp_u64("vp_in.m_refcnt.v", 1);
 	pipe0 = (uint32_t) vp_u64("vp_in.m_pipe", 0);
 	if (!vp_has("vp_in.m_header_len") && !(with_body && vp_has("vp_in_cap")))
 		SKIP("trace has no entry snapshot");
-	if (hlen0 > HCAP || ref0 < 1)
+	if ((hlen0 > HCAP && !(flags & B_NOHLEN)) || (ref0 < 1 && !(flags & B_NOREF)))
 		SKIP("counterexample pre-state is not a well-formed message");
 	/* (vp_in_cap/off/len: inputs recorded with the older chunk-only snapshot of nni_msg_realloc) */
 	cap0 = with_body ? vp_u64("vp_in.m_body.ch_cap", vp_u64("vp_in_cap", 64)) : 64;
@@ -361,12 +365,19 @@ replay_hdr(const char *fn)
 	nni_msg *m;
 	int      rc;
 	size_t   n = vp_u64("vp_arg_len", 0);
-	if ((rc = build_msg(&m, 0)) != 0)
+	int      fl = 0;
+	if (IS("nni_msg_header_peek_u32") || IS("nni_msg_shared") || IS("nni_msg_set_pipe") || IS("nni_msg_get_pipe"))
+		fl = B_NOREF | B_NOHLEN;
+	if (IS("nni_msg_header_poke_u32"))
+		fl = B_NOREF;
+	if ((rc = build_msg(&m, fl)) != 0)
 		return (rc);
 	uint8_t *h = HB(m);
-	showhdr("header before:", h0, hlen0);
+	showhdr("header before:", h0, VP_MIN(hlen0, HCAP));
 	if (IS("nni_msg_header_append") || IS("nni_msg_header_insert")) {
 		int      ins  = IS("nni_msg_header_insert");
+		if (n >= ((size_t) 1 << 55)) /* no object has that many bytes (CBMC: 2^55, natively less) */
+			SKIP("precondition: data points to an object of len = %zu bytes", n);
 		uint8_t *data = mkdata(n, 65);
 		int      rv   = ins ? nni_msg_header_insert(m, data, n) : nni_msg_header_append(m, data, n);
 		printf("%s(header_len=%zu, len=%zu) -> %d; header_len now %zu\n", fn, hlen0, n, rv, m->m_header_len);
@@ -486,7 +497,7 @@ replay_msg(const char *fn)
 		VP_EXPECT(vp_free_calls == 0);
 		return (0);
 	}
-	if ((rc = build_msg(&m, 1)) != 0)
+	if ((rc = build_msg(&m, B_BODY | (IS("nni_msg_dup") ? B_NOREF : 0))) != 0)
 		return (rc);
 	nni_chunk *c    = &m->m_body;
 	int        live = vp_live_count();
